@@ -9,6 +9,33 @@ COMMON_NOTE = ("Trusted base: CPython 3.12, numpy/scipy, icontract (or vlib.atta
                "(independent of molgri, see DESIGN.md section 3.2/5). Decides only the executions produced; nothing is 'verified'.")
 
 CHECKS = {
+    "C18": dict(
+        technique="invariant at a hook (icontract postcondition + snapshot on the polytope classes' __init__/divide_edges, get_nodes, get_half_of_hypercube) against independently built ideal lattices",
+        text="After every construction and every divide_edges of the three real polytope classes the whole node set is compared with an "
+             "independently generated lattice (cube/hypercube boundary lattice, frequency-2^k icosahedral lattice), together with projection, "
+             "negation closure, index range, level monotonicity and - against a snapshot taken before the call - permanence of every earlier "
+             "index; get_nodes / get_half_of_hypercube results are compared with the graph sorted by permanent index (catches a stale sorted-node "
+             "cache). Complete to the levels any N within the exploration bound can reach (ico/cube level 4, hypercube level 2), with getter "
+             "calls interleaved between subdivisions.",
+        design_ref="5/C18"),
+    "C07": dict(
+        technique="runtime monitors (postconditions on SphereGrid3DFactory.create / SphereGrid4DFactory.create) with norm / distinctness / separation / hemisphere / double-cover predicates; sweep over every N",
+        text="Every grid the real factories return is judged: N rows, unit norm, pairwise distinct, polytope separation bounds, canonical "
+             "hemisphere, no two rows equal up to sign, double cover = [G; -G] bit-exactly, N=1-by-name = identity / z. Workload: all algorithms, "
+             "every N up to 60 (3-D) / 43 (4-D) quick, 700 / 140 (+271..273) thorough, fulldiv sizes and rejections, zero grids.",
+        design_ref="5/C07"),
+    "C09": dict(
+        technique="runtime monitors (postconditions on FullGrid.get_full_grid_as_array, index helpers, from_full_array_to_o_b_t) against the row formula built from the three generating grids",
+        text="Every full-grid array is compared row by row with [10*r_t*d_o, q_b] for t,o,b derived from the row index (quaternions bit-exact), the "
+             "index helpers with n div n_b / n mod n_b for all and for random index subsets, and the decomposition with the generating grids in "
+             "original order. Random grids over all algorithm combinations, unsorted radial input.",
+        design_ref="5/C09"),
+    "C19": dict(
+        technique="outcome monitors (exception class / result shape) on FullGrid.__init__ and its five getters; exhaustive small box",
+        text="Every construction and getter call of the real FullGrid is judged by outcome: correct shape or ValueError (QhullError allowed at "
+             "construction in Cartesian mode with <3 directions); any other exception class is a violation. Exhaustive over n_b,n_o in 1..5, "
+             "n_t in {1,2} (quick) / {1,2,3} plus explicit algorithm names (thorough), both position modes.",
+        design_ref="5/C19"),
     "C03": dict(
         technique="runtime monitors (postconditions on the Voronoi getters of every 3-D grid object) against a pure-numpy bisector-arc oracle; sweep over every N",
         text="Every adjacency / border / centre-distance / area result of the real direction-grid objects is compared, pair by pair, with an "
